@@ -16,7 +16,7 @@ from tablecheck import table_check
 CLAUSES = ["PromoteOnlyAfterDelay", "RecoveryCancels", "RoleAfterCallback", "OneCompletedPerPromotion",
            "FailbackOnlyHealthy", "NoStuckInProgress"]
 
-SHAPE_CFG = dict(impl="shape", orig="standby", delay=2, fbdelay=2, grace=0, failback=True, failth=1, recth=1, gated=True, nsubs=0)
+SHAPE_CFG = dict(impl="shape", orig="standby", delay_q=2, fbdelay_q=2, grace_q=0, failback=True, failth=1, recth=1, gated=True, nsubs=0)
 
 
 def _design_counterexamples(work):
@@ -40,6 +40,19 @@ def _design_counterexamples(work):
     return res, [(list(k), v) for k, v in sorted(best.items())]
 
 
+DESIGN = [("FailoverDesign", "MC_design_promotion.cfg", 4), ("FailoverDesign", "MC_design_failback.cfg", 4),
+          ("FailoverShape", "MC_shape_fixed.cfg", 2)]
+DESIGN_THOROUGH = DESIGN + [("FailoverDesign", "MC_design_full.cfg", 8)]
+
+
+def _design_must_pass(work, module, cfgfile, workers):
+    sd = os.path.join(SPECS, "Failover")
+    res = run_tlc(sd, module, open(os.path.join(sd, cfgfile)).read(), work, workers=workers, timeout=1500, name=cfgfile[:-4])
+    if "No error has been found" not in res["out"]:
+        raise Infra("design spec %s/%s did not pass TLC (a specification problem, not a verdict):\n%s" % (module, cfgfile, res["out"][-3000:]))
+    return dict(module=module, cfg=cfgfile, states=res["distinct"], transitions=res["generated"])
+
+
 def runner(prop, fam, tier, seed, replay=None):
     t0 = time.time()
     pre = os.path.join(WORK, "%s-shape-%d" % (prop, os.getpid()))
@@ -48,13 +61,21 @@ def runner(prop, fam, tier, seed, replay=None):
     try:
         fam2 = dict(fam)
         fam2.pop("runner", None)
-        shape_info = None
+        fam2["design"] = []   # run here, concurrently
+        shape_info, design_stats = None, []
         if not replay:
+            from concurrent.futures import ThreadPoolExecutor
             try:
-                res, cex = _design_counterexamples(pre)
+                with ThreadPoolExecutor(max_workers=4) as ex:
+                    f0 = ex.submit(_design_counterexamples, pre)
+                    fs = [ex.submit(_design_must_pass, pre, m, c, w) for (m, c, w) in (DESIGN_THOROUGH if tier == "thorough" else DESIGN)]
+                    res, cex = f0.result()
+                    design_stats = [f.result() for f in fs]
             except Infra as e:
                 print("INFRA-FAILURE property=%s %s" % (prop, str(e)[:3000]), flush=True)
                 return 2
+            for d in design_stats:
+                log("design %s/%s: %d distinct states" % (d["module"], d["cfg"], d["states"]))
             cases = [dict(id="cex%d" % i, system="shape", events=evs, cfg=SHAPE_CFG, clauses=cl) for i, (cl, evs) in enumerate(cex)]
             cf = os.path.join(pre, "extra_cases.json")
             json.dump(dict(property=prop, cases=cases), open(cf, "w"))
@@ -72,8 +93,9 @@ def runner(prop, fam, tier, seed, replay=None):
             try:
                 ev = json.load(open(p))
                 ev["coverage"]["original_design_model"] = shape_info
-                ev["coverage"]["states"] += shape_info["states"]
-                ev["coverage"]["transitions"] += shape_info["transitions"]
+                ev["coverage"]["design_runs"] = design_stats
+                ev["coverage"]["states"] += shape_info["states"] + sum(d["states"] for d in design_stats)
+                ev["coverage"]["transitions"] += shape_info["transitions"] + sum(d["transitions"] for d in design_stats)
                 ev["wall_s"] = round(time.time() - t0, 2)
                 tmp = p + ".tmp"
                 json.dump(ev, open(tmp, "w"), indent=1, sort_keys=True)
@@ -89,8 +111,7 @@ CHECKS = {
     "C14": dict(
         runner=runner,
         pkg="./failover", test="TestExplore", spec_dir="Failover", impl_module="FailoverImpl",
-        design=[("FailoverDesign", "MC_design_promotion.cfg", 8), ("FailoverDesign", "MC_design_failback.cfg", 8),
-                ("FailoverShape", "MC_shape_fixed.cfg", 4)],
+        design=DESIGN,
         watch=CLAUSES,
         cfg_extra="INVARIANT RoleTracks\n",
         assumptions=[
